@@ -137,6 +137,8 @@ def summarize(F, key):
     conds = {}
     guards = []
     for bi, e, arms, els in switch_conditions(fn):
+        if _is_try_switch(fn, bi):
+            continue  # `?`: covered by the must/order summaries
         sig = cond_signature(e)
         if sig is None:
             continue
@@ -164,6 +166,23 @@ def summarize(F, key):
         if found:
             silent[bk] = sorted(found, key=lambda g: json.dumps(g))
     return {"must": must, "order": order, "args": args, "guards": guards, "silent": silent}
+
+
+def _is_try_switch(fn, bi):
+    """The switch tests the ControlFlow produced by `Try::branch` (the `?` operator)."""
+    blk = fn["blocks"][bi]
+    d = local_of(blk["term"]["d"])
+    src = None
+    for st in reversed(blk["st"]):
+        if st["k"] == "assign" and not st["dst"]["p"] and st["dst"]["l"] == d and st["rv"]["r"] == "discr":
+            src = st["rv"]["pl"]["l"]
+            break
+    if src is None:
+        return False
+    for kind, b2, x in defs_of(fn).get(src, []):
+        if kind == "call" and any(n.endswith("ops::try_trait::Try::branch") for n in callee_names(x)):
+            return True
+    return False
 
 
 def cond_signature(e):
@@ -348,6 +367,8 @@ def check(ctx, prop):
             if hit is not None:
                 cur_g.pop(hit)
                 continue
+            if _guard_in_helper(ctx, k, g):
+                continue
             bad += 1
             ctx.record("baseline-guard", "R9", k, "%s: branch condition %s(%s ; %s) is present" % (short(k, 2), g[0], ",".join(g[1])[:80], ",".join(g[2])[:80]), "violation", [where],
                        ["on the confirmed tree %s branched on %s(%s ; %s); no branch with this operator and these operand origins remains (guard removed, weakened or its operands re-sourced)"
@@ -380,6 +401,27 @@ def check(ctx, prop):
         ctx.record("baseline", "R9", None, "confirmed-instance baseline: %d functions, %d must-pass, %d check-before-change, %d argument-origin, %d branch-condition, %d no-new-skip instances hold" % (
             len(base), n_must, n_order, n_args, n_guards[0], n_silent[0]), "hold", sorted(base)[:6])
     return not bad
+
+
+def _guard_in_helper(ctx, k, g):
+    """A confirmed branch condition that moved into a directly called workspace helper (matched with the helper's parameters
+    replaced by the caller's argument expressions)."""
+    F = ctx.F
+    f = F.fns[k]
+    exf = Exprs(f)
+    for cbi, t in F.calls(k):
+        for gname in callee_names(t):
+            if gname not in F.fns or gname == k or F.fns[gname]["kind"] == "Closure":
+                continue
+            gf = F.fns[gname]
+            args = [exf.operand(a) for a in t["args"]]
+            for bi, e, arms, els in switch_conditions(gf):
+                if _is_try_switch(gf, bi):
+                    continue
+                sig = cond_signature(subst(e, args))
+                if sig and sig[0] == g[0] and set(g[1]) <= set(sig[1]) and set(g[2]) <= set(sig[2]):
+                    return True
+    return False
 
 
 def _matches_key(fn, t, key):
